@@ -25,9 +25,12 @@ LEAN_MODULES = ["PyrollProps.C06"]
 MODEL = "c06"
 MODEL_MODULES = ["PyrollModel.Gen.C06", "PyrollModel.HandoverDriver"]
 RULE = ("real pass sequences, built from a replayable spec and solved: 1-5 top-level units, flat or nested (depth <= 3), "
-        "two-roll passes (6 groove families) and three-roll passes, transports (duration or length given), cooling pipes, "
+        "two-roll passes (6 groove families) and three-roll passes, transports (duration or length given, 18 % with two of "
+        "length / duration / velocity given explicitly), cooling pipes, "
         "explicit rotators, 0-4 disk elements per pass/transport, 4 incoming profile shapes, incoming length/time/strain "
-        "varied (incl. defaults), optionally a flow-stress or width (spreading) model registered as hook implementation "
+        "varied (incl. defaults), derived hook values READ on the caller's profile object before it is handed to solve "
+        "(none / a few / all readable hooks of the profile class: fills its hook cache), optionally a flow-stress or "
+        "width (spreading) model registered as hook implementation "
         "(removed in `finally`); every unit and disk element of the solved tree is checked by the oracle and the whole "
         "tree is compared with the Lean hand-over model; plus every generated formula x random environments. "
         "non-trivial = the sequence solved, has >= 2 units and a positive incoming length; distinct by the spec.")
@@ -154,6 +157,30 @@ def build_in_profile(spec):
     return Profile.diamond(height=s * 0.8, width=s * 1.1, corner_radius=s * 0.05, **kw)
 
 
+def profile_hook_names():
+    """the (sorted) hook names of the caller's profile class - the pool the generator draws prior reads from"""
+    from pyroll.core import Profile
+    return sorted(Profile.__hooks__)
+
+
+def apply_reads(ip, names, count=None):
+    """what a user does before solving: LOOK at derived values of the incoming profile (`ip.equivalent_height`, ...).
+    A read only fills the hook cache of that object; a hook without value raises the documented AttributeError.
+    Returns the names that gave a value."""
+    got = []
+    for n in names:
+        try:
+            getattr(ip, n)
+        except AttributeError:      # documented: the hook cannot provide a value on this object
+            if count:
+                count("prior-read:no-value")
+            continue
+        got.append(n)
+        if count:
+            count("prior-read:value" + (":explicit" if n in ip.__dict__ else ":cached"))
+    return got
+
+
 def _flow_stress(self):
     return 50e6 * (1 + self.strain) ** 0.2 * self.roll_pass.strain_rate ** 0.1
 
@@ -244,7 +271,22 @@ def gen_transport(rng, after_pass=True):
     """a transport / cooling pipe; its length can be given only directly after a roll pass (the velocity then comes with
     the incoming profile - a nested sequence does not deliver one), else its duration"""
     t = {"type": rng.choice(["transport", "transport", "pipe"]), "disks": rng.choice([0, 0, 1, 2, 3, 4])}
-    if rng.random() < 0.6 or not after_pass:
+    r = rng.random()
+    if r < 0.18:
+        # explicit values for quantities that usually follow from one another: a roller table with its own speed
+        # (velocity given besides length or duration - then no velocity of the incoming profile is needed), or a looper /
+        # dwell with both length and duration given (duration != length / velocity of the incoming profile)
+        dur = rng.choice([1, 0.5, 2.5, round(rng.uniform(0.1, 5), 3)])
+        length = rng.choice([1, 2.0, round(rng.uniform(0.2, 6), 3)])
+        vel = rng.choice([1, 0.25, round(rng.uniform(0.05, 8), 3)])
+        k = rng.choice(["length+duration", "length+velocity", "duration+velocity"])
+        if "length" in k:
+            t["length"] = length
+        if "duration" in k:
+            t["duration"] = dur
+        if "velocity" in k:
+            t["velocity"] = vel
+    elif r < 0.65 or not after_pass:
         t["duration"] = rng.choice([1, 0.5, 2.5, 0, round(rng.uniform(0.1, 5), 3)])
     else:
         t["length"] = rng.choice([1, 2.0, round(rng.uniform(0.2, 6), 3)])
@@ -313,7 +355,18 @@ def gen_units(rng, depth, st, want):
     return units
 
 
-def gen_case(rng):
+def gen_reads(rng, names):
+    """which hooks of the incoming profile the caller reads before solve(): nothing (as every test and plain script),
+    a few, or everything that can be read"""
+    r = rng.random()
+    if not names or r < 0.45:
+        return []
+    if r < 0.7:
+        return list(names)
+    return sorted(rng.sample(names, min(len(names), rng.choice([1, 2, 4, 8, 16]))))
+
+
+def gen_case(rng, hook_names=()):
     three = rng.random() < 0.2
     n = rng.choice([1, 2, 3, 3, 4, 5])
     st = {"three": three, "last": None, "scale": 1.0}
@@ -327,6 +380,9 @@ def gen_case(rng):
     model = rng.choice(["none", "none", "flow_stress", "width"])
     if model == "flow_stress" and not three:     # the flow stress model is registered on the two-roll pass profiles
         spec_in["flow_stress"] = False
+    reads = gen_reads(rng, list(hook_names))
+    if reads:
+        spec_in["reads"] = reads
     return {"in": spec_in, "units": units, "model": model}
 
 
@@ -453,12 +509,35 @@ def check_handover(viol, a, b, where, rotated, in_roots, rot_roots):
             continue
         if k not in pb or not _same(v, pb[k]):
             viol("handover-other-value", f"{where}: explicit value {k!r} delivered {v!r}, received {pb.get(k)!r}")
+    # ... and nothing but that ("exactly what its predecessor delivered"): an explicit value of the received state that
+    # nobody delivered and that the receiving side does not compute itself on entry (its own root hooks; the entry
+    # rotation) has been made up on the way - e.g. a derived value somebody once READ on the delivering object
+    # (equivalent_height, width ...) frozen into explicit state, from where it overrides the hook for ever after
+    recomputed = set(in_roots) | (set(rot_roots) if rotated else set())
+    for k, v in pb.items():
+        if k not in pa and k not in recomputed:
+            viol("handover-undelivered-value", f"{where}: the received state holds the explicit value {k!r} = {v!r} "
+                 f"which the delivered state does not hold")
 
 
-def check_tree(seq, prec_of, viol, count, root_names_of):
-    """all sentences of the property on one solved unit tree; `viol(key, what)` reports, `count(key)` counts"""
+def check_tree(seq, prec_of, viol, count, root_names_of, given=None, returned=None):
+    """all sentences of the property on one solved unit tree; `viol(key, what)` reports, `count(key)` counts.
+    `given` is the profile object the caller handed to `seq.solve`, `returned` what that call returned: the caller is
+    the predecessor of the outermost unit and its successor."""
     from pyroll.core import PassSequence, Transport, Rotator
     tol_f = 10.0
+    if given is not None:
+        rotated = _is_pass(seq) and bool(seq.rotation)
+        check_handover(viol, given, seq.in_profile, "seq<-caller", rotated, root_names_of(type(seq.in_profile)),
+                       root_names_of(Rotator.OutProfile))
+        count("handover-checked:caller")
+    if returned is not None:
+        pr, po = _pub(returned), _pub(seq.out_profile)
+        for k in sorted(set(pr) | set(po)):
+            if k not in pr or k not in po or not _same(pr[k], po[k]):
+                viol("returned-profile", f"caller<-seq: {k!r} of the returned profile is {pr.get(k)!r}, the outermost "
+                     f"unit delivered {po.get(k)!r}")
+        count("returned-profile-checked")
 
     def walk(u, path):
         where = f"{path}:{type(u).__name__}"
@@ -621,8 +700,9 @@ def _dict_tok(d):
     return ",".join(f"{k}={v}" for k, v in d.items()) if d else "-"
 
 
-def model_line(seq, in_profile, root_list, gen_roots, rotators):
-    """-> (line, expected trace [(in ids, out ids)] in the model's order, skipped reason or None)"""
+def model_line(seq, in_profile, root_list, gen_roots, rotators, cache=None):
+    """-> (line, expected trace [(in ids, out ids)] in the model's order, skipped reason or None).
+    `cache`: the hook cache the handed-over object had when it was handed over (name -> value)"""
     ids = Ids()
 
     def owners(p):
@@ -693,7 +773,8 @@ def model_line(seq, in_profile, root_list, gen_roots, rotators):
     extra = [(h.owner.__qualname__, h.name) for h in root_list][len(gen_roots):]
     extra_tok = ",".join(f"{o}:{n}" for o, n in extra) or "-"
     start = {k: ids(v) for k, v in _pub(in_profile).items()}
-    return " ".join(["H", "_", extra_tok, _dict_tok(start)] + toks), (expected, all_roots - common_roots)
+    cached = {k: ids(v) for k, v in (cache or {}).items()}
+    return " ".join(["H", "_", extra_tok, _dict_tok(start), _dict_tok(cached)] + toks), (expected, all_roots - common_roots)
 
 
 def parse_trace(line):
@@ -710,13 +791,71 @@ def parse_trace(line):
 
 
 # ---------------------------------------------------------------------------------------------------------------
-def solve_case(spec):
-    """build and solve; returns (sequence, in_profile, rotators) - exceptions of pyroll propagate"""
+def solve_case(spec, count=None, reads=True, out=None):
+    """build and solve; returns (sequence, in_profile, rotators) - exceptions of pyroll propagate.
+    `out` (a dict) receives the profile `solve` returned."""
     ip = build_in_profile(spec["in"])
+    if reads and spec["in"].get("reads"):
+        apply_reads(ip, spec["in"]["reads"], count)
     seq = build_unit({"type": "seq", "units": spec["units"]}, "S")
+    if out is not None:     # the hook cache of the object that is handed over (an input of the hand-over model)
+        out["cache"] = {n: getattr(ip, n) for n in sorted(type(ip).__hooks__) if ip.has_cached(n) and not ip.has_set(n)}
     with RotatorCapture() as cap:
-        seq.solve(ip)
+        ret = seq.solve(ip)
+    if out is not None:
+        out["returned"] = ret
     return seq, ip, cap.by_pass
+
+
+def _in_pyroll(ex):
+    import traceback
+    return any("/pyroll/" in f.filename for f in traceback.extract_tb(ex.__traceback__))
+
+
+def _core_state(p):
+    """the quantities of the property statement on one profile, as comparable values"""
+    d = _pub(p)
+    cs = d.get("cross_section")
+    cl = d.get("classifiers")
+    return (d.get("length"), d.get("t"), d.get("strain"), cs.wkb if cs is not None else None,
+            tuple(sorted(cl)) if cl is not None else None)
+
+
+def check_reads_twin(spec, solved_seq, viol, count):
+    """What was READ on the caller's profile before solve() is no part of what the caller delivers: the same sequence
+    solved on an equal profile object on which nothing was read must receive, hand over and deliver the same state in
+    every unit (the computation is deterministic: exact comparison).  `solved_seq` is None when the solve with the
+    prior reads raised inside pyroll."""
+    try:
+        twin, _, _ = solve_case(spec, reads=False)
+    except Exception as ex:
+        rc = _root_cause(ex)
+        if not _in_pyroll(rc):
+            raise
+        if solved_seq is not None:
+            viol("prior-reads-change-solution", f"the sequence solves after reading {spec['in']['reads']} on the incoming "
+                 f"profile, but raises {type(rc).__name__} on an equal profile nothing was read on")
+        count("reads-twin:both-raise" if solved_seq is None else "reads-twin:differ")
+        return
+    if solved_seq is None:
+        viol("prior-reads-change-solution", f"the sequence solves on the incoming profile, but no longer after "
+             f"{spec['in']['reads']} were read on that profile object before solve()")
+        count("reads-twin:differ")
+        return
+    a, b = [_core_state(p) for p in solved_seq.profiles], [_core_state(p) for p in twin.profiles]
+    if len(a) != len(b):
+        viol("prior-reads-change-solution", f"{len(a)} profiles with prior reads, {len(b)} without")
+        return
+    for i, (x, y) in enumerate(zip(a, b)):
+        if x != y:
+            names = ("length", "t", "strain", "cross_section", "classifiers")
+            which = [n for n, u, v in zip(names, x, y) if u != v]
+            viol("prior-reads-change-solution", f"profile #{i} of the solved sequence: {which} differ between the solve on "
+                 f"a profile {spec['in']['reads']} were read on before (length, t, strain = {x[:3]}) and the solve on an "
+                 f"equal profile nothing was read on ({y[:3]})")
+            count("reads-twin:differ")
+            return
+    count("reads-twin:same")
 
 
 def _root_cause(ex):
@@ -725,40 +864,73 @@ def _root_cause(ex):
     return ex
 
 
-def run_case(ctx, spec, lines, pending):
-    """solve one spec, run the oracle, queue the model line. Returns True if the sequence solved."""
-    from pyroll.core import root_hooks, Config
+def _examine(ctx, spec, twin, count):
+    """solve one spec and run the oracle on it -> (solved, [(key, what, replay)], model arguments or None).
+    Must run inside `Registered(spec["model"])`."""
+    from pyroll.core import root_hooks
+    twin = twin and bool(spec["in"].get("reads"))
+    robj = {"spec": spec, "twin": True} if twin else {"spec": spec}
+    found = []
+    got = {}
+
+    def viol(key, what):
+        found.append((key, what, robj))
+    try:
+        seq, ip, rot = solve_case(spec, count, out=got)
+    except Exception as ex:
+        rc = _root_cause(ex)
+        if not _in_pyroll(rc):
+            raise
+        count("solve-raised:" + type(rc).__name__)
+        ctx.last_solve_error = f"{type(rc).__name__}: {str(rc)[:200]}"
+        if twin:
+            check_reads_twin(spec, None, viol, count)
+        return False, found, None, got
+    root_list = list(root_hooks)
+
+    def root_names_of(cls):
+        return [h.name for h in root_list if issubclass(cls, h.owner)]
+
+    def prec_of(u):
+        return float(u.iteration_precision)
+    check_tree(seq, prec_of, viol, count, root_names_of, given=ip, returned=got.get("returned"))
+    if twin:
+        check_reads_twin(spec, seq, viol, count)
+    return True, found, (seq, ip, root_list, rot), got
+
+
+def run_case(ctx, spec, lines, pending, twin=False):
+    """solve one spec, run the oracle, queue the model line. Returns True if the sequence solved.
+    `twin`: additionally solve the same spec without the prior reads and compare (`check_reads_twin`)."""
     with Registered(spec["model"]):
-        try:
-            seq, ip, rot = solve_case(spec)
-        except Exception as ex:
-            rc = _root_cause(ex)
-            import traceback
-            if not any("/pyroll/" in f.filename for f in traceback.extract_tb(rc.__traceback__)):
-                raise
-            ctx.count("solve-raised:" + type(rc).__name__)
-            ctx.last_solve_error = f"{type(rc).__name__}: {str(rc)[:200]}"
-            return False
-        root_list = list(root_hooks)
-
-        def root_names_of(cls):
-            return [h.name for h in root_list if issubclass(cls, h.owner)]
-
-        def viol(key, what):
-            ctx.violation(key, what, {"spec": spec})
-
-        def prec_of(u):
-            return float(u.iteration_precision)
-        check_tree(seq, prec_of, viol, ctx.count, root_names_of)
-        if getattr(ctx, "model_available", True):
+        ok, found, margs, got = _examine(ctx, spec, twin, ctx.count)
+        if found and spec["in"].get("reads"):
+            # shrink the replay: does the same kind of failure show without any prior read, or with only those reads
+            # that left a value in the hook cache?
+            keys = {k for (k, _, _) in found}
+            cached = sorted(got.get("cache", {}))
+            for reads in ([], cached):
+                if reads == spec["in"]["reads"]:
+                    continue
+                smaller = dict(spec, **{"in": {k: v for k, v in spec["in"].items() if k != "reads"}})
+                if reads:
+                    smaller["in"]["reads"] = reads
+                _, found2, _, _ = _examine(ctx, smaller, twin, lambda *a: None)
+                if keys & {k for (k, _, _) in found2}:
+                    found = [f for f in found2 if f[0] in keys] + [f for f in found if f[0] not in {k for (k, _, _) in found2}]
+                    break
+        for (key, what, robj) in found:
+            ctx.violation(key, what, robj)
+        if ok and getattr(ctx, "model_available", True):
+            seq, ip, root_list, rot = margs
             gen_roots = getattr(ctx, "gen_roots", None) or []
             try:
-                line, expected = model_line(seq, ip, root_list, gen_roots, rot)
+                line, expected = model_line(seq, ip, root_list, gen_roots, rot, got.get("cache"))
                 lines.append(line)
                 pending.append((spec, expected))
             except LookupError as ex:
                 ctx.count("model-skipped:" + str(ex)[:40])
-    return True
+    return ok
 
 
 def compare_model(ctx, out_lines, pending):
@@ -824,8 +996,11 @@ def run(ctx):
     # ---- (c) solved sequences: oracle + hand-over model -------------------------------------------------------------
     lines, pending = [], []
     solved = 0
-    for spec in CORPUS:
-        ok = run_case(ctx, spec, lines, pending)
+    hook_names = profile_hook_names()
+    # every corpus layout as it is and once more after the caller has looked at every hook of the incoming profile
+    corpus = list(CORPUS) + [dict(spec, **{"in": dict(spec["in"], reads=hook_names)}) for spec in CORPUS]
+    for spec in corpus:
+        ok = run_case(ctx, spec, lines, pending, twin=True)
         ctx.case(["corpus", spec], nontrivial=ok)
         ctx.count("corpus-solved" if ok else "corpus-unsolved")
         if not ok and ctx.extended:
@@ -836,8 +1011,8 @@ def run(ctx):
     # (the extended search after a broken tie multiplies budgets by 5: 600 / 6000 sequences)
     n = ctx.budget(330, 4500) if not ctx.extended else ctx.budget(120, 1200)
     for i in range(n):
-        spec = gen_case(rng)
-        ok = run_case(ctx, spec, lines, pending)
+        spec = gen_case(rng, hook_names)
+        ok = run_case(ctx, spec, lines, pending, twin=rng.random() < 0.12)
         flat = _flat(spec["units"])
         ctx.case(spec, nontrivial=ok and len(flat) >= 2 and (spec["in"]["length"] or 0) > 0)
         if ok:
@@ -845,8 +1020,12 @@ def run(ctx):
             ctx.count("layout:nested" if any(u["type"] == "seq" for u in spec["units"]) else "layout:flat")
             ctx.count("model:" + spec["model"])
             ctx.count("in:" + spec["in"]["kind"])
+            nr = len(spec["in"].get("reads", []))
+            ctx.count("prior-reads:" + ("none" if nr == 0 else "all" if nr == len(hook_names) else "some"))
             for u in flat:
                 ctx.count("spec:" + u["type"] + (":three" if u.get("three") else ""))
+                if u["type"] in ("transport", "pipe"):
+                    ctx.count("transport-given:" + "+".join(k for k in ("length", "duration", "velocity") if k in u))
                 if u.get("disks"):
                     ctx.count(f"disks:{u['disks']}")
             if len(ctx.samples) < 3:
@@ -963,4 +1142,4 @@ def replay(ctx, data):
     lines, pending = [], []
     ctx.gen_roots = getattr(ctx, "skeleton", {}).get("root_hooks", []) if getattr(ctx, "skeleton", None) else []
     ctx.model_available = False
-    run_case(ctx, spec, lines, pending)
+    run_case(ctx, spec, lines, pending, twin=bool(r.get("twin")))
